@@ -224,7 +224,7 @@ Lemma to_entry_S : forall SC f c busy n,
       leaf_entry name ty cfg mand (match dflt with Some d => [d] | None => [] end) units
   | DLeafList name ty cfg dflts minE maxE =>
       let '(mx, bad) := semCheckMax maxE in
-      (Entry name KLeaf cfg TSUnset dflts [] (Some ty) [] (Some (semCheckMin minE, mx)) None None None,
+      (Entry name KLeaf cfg TSUnset dflts [] (Some ty) [] (Some (semCheckMin minE, mx, (is_some minE, is_some maxE))) None None None,
        negb (is_builtin ty) || bad)
   | DContainer name cfg body =>
       let '(d, e) := body_dir SC f c busy body in
@@ -233,7 +233,7 @@ Lemma to_entry_S : forall SC f c busy n,
       let '(d, e) := body_dir SC f c busy body in
       let '(mx, bad) := semCheckMax maxE in
       (Entry name KDir cfg TSUnset [] [] None (match key with Some k => k | None => [] end)
-             (Some (semCheckMin minE, mx)) None (Some d) None, e || bad)
+             (Some (semCheckMin minE, mx, (is_some minE, is_some maxE))) None (Some d) None, e || bad)
   | DChoice name cfg mand dflt body =>
       let '(d, e) := body_dir SC f c busy body in
       (Entry name KChoice cfg mand (match dflt with Some x => [x] | None => [] end) [] None [] None None (Some d) None, e)
